@@ -68,9 +68,10 @@ Conforms(e) ==
          LET v == ValidMnemonic(e.in.words, e.facts)
          IN /\ e.out.panic = "" /\ wl # <<>>
             /\ v # "nofact"
-            /\ e.out.ok = (v = "true")
-            /\ v = "false" => e.out.seed = <<>>
-            /\ v = "true" => /\ e.facts.nfkd_in = e.in.pass
+            /\ v = "false" => ~e.out.ok /\ e.out.seed = <<>>
+            /\ e.out.pass_in_domain => e.out.ok = (v = "true")       \* (not a Unicode string: outside C09)
+            /\ (v = "true" /\ e.out.pass_in_domain) =>
+                             /\ e.facts.nfkd_in = e.in.pass
                              /\ AsciiOnly(e.in.pass) => e.facts.nfkd = e.in.pass
                              /\ e.facts.pbkdf_pw = JoinWords(e.in.words)
                              /\ e.facts.pbkdf_salt = Mnemonic8 \o e.facts.nfkd
